@@ -235,7 +235,17 @@ func GenPeerWorld(r *rand.Rand, tag string) (*PeerWorld, error) {
 		w.Truth[m.MID] = c
 		w.PeerMsgs = append(w.PeerMsgs, m)
 		w.LibPolicy[m.MID] = []fbb.ProposalAnswer{fbb.Accept, fbb.Accept, fbb.Accept, fbb.Reject, fbb.Defer}[r.Intn(5)]
-		pl.Outbound = append(pl.Outbound, b2fref.OutMsg{MID: m.MID, Type: []string{"EM", "EM", "CM"}[r.Intn(3)], Title: m.Subject, Data: c})
+		// The title of the transfer header is the remote's business: other Winlink programs put the subject there as raw
+		// ISO-8859-1 bytes or as an RFC 2047 encoded word (what this library itself sends for such a subject). Its length on
+		// the wire is what the header's length byte counts.
+		title := m.Subject
+		switch i % 6 {
+		case 4:
+			title = "Bl\xe5b\xe6rsyltet\xf8y p\xe5 fjellet " + fmt.Sprint(i)
+		case 5:
+			title = "=?utf-8?q?Bl=C3=A5b=C3=A6rsyltet=C3=B8y_p=C3=A5_fjellet_" + fmt.Sprint(i) + "?="
+		}
+		pl.Outbound = append(pl.Outbound, b2fref.OutMsg{MID: m.MID, Type: []string{"EM", "EM", "CM"}[r.Intn(3)], Title: title, Data: c})
 	}
 	return w, nil
 }
